@@ -60,7 +60,7 @@ macro_rules! c07_stubs {
 
 c07_stubs! {
 
-//@ prop: C07
+//@ prop: C07 C12
 //@ tier: quick
 //@ what: dropping an AsyncFd, for every descriptor number and both kinds, with room in the queue or not: with room exactly one no-success-event CLOSE (regular: fd; direct: file_index = fd+1) tagged as background close and NO synchronous close; without room exactly one synchronous close -- close(fd) for a regular descriptor, FILES_UPDATE{offset = fd, fds = [-1]} for a direct one -- and no submission; never both, never the other kind's method
 //@ bound: fd any value in 0..2^31-1 (direct: index < 2^31-1); kind and queue fullness symbolic
